@@ -28,6 +28,10 @@ pub struct RawChainInput {
     /// per dim: low 2 bits = kind (0,1 fixed; 2,3 symbolic), next bits = symbol index / size selector
     pub dims: [u8; 4],
     pub int: bool,
+    /// `big % 3 == 0`: one dim of this input is drawn from `BIG_DIMS` (fixed or
+    /// the symbol `big`), the others from {0, 1, 2} ({0, 1} next to 65537)
+    #[serde(default)]
+    pub big: u8,
 }
 
 #[derive(Clone, Debug, PartialEq, Serialize, Deserialize)]
@@ -39,7 +43,7 @@ pub struct RawChain {
 }
 
 pub fn raw_chain(max_steps: usize) -> impl Strategy<Value = RawChain> {
-    let input = (1u8..=4, any::<[u8; 4]>(), any::<bool>()).prop_map(|(rank, dims, int)| RawChainInput { rank, dims, int });
+    let input = (1u8..=4, any::<[u8; 4]>(), any::<bool>(), any::<u8>()).prop_map(|(rank, dims, int, big)| RawChainInput { rank, dims, int, big });
     (proptest::collection::vec(input, 1..=3), any::<[u8; 4]>(), proptest::collection::vec(any::<[u16; 6]>(), 1..=max_steps), any::<u16>())
         .prop_map(|(inputs, sym_sizes, steps, seed)| RawChain { inputs, sym_sizes, steps, seed })
 }
@@ -68,6 +72,10 @@ impl ChainCase {
         ChainCase::Fixed(Box::new(self.build()))
     }
 }
+
+/// Dimension sizes around the ranges of the 8-bit element types (values that a
+/// narrowing Cast of a shape value wraps) plus one beyond 16 bits.
+const BIG_DIMS: [usize; 9] = [127, 128, 129, 255, 256, 257, 300, 511, 65537];
 
 const SYMS: [&str; 4] = ["batch", "seq", "h", "w"];
 const SIZES: [usize; 8] = [1, 2, 3, 4, 2, 3, 0, 5];
@@ -136,6 +144,8 @@ impl B {
         let dims: Vec<i64> = if scalar { vec![] } else { vec![vals.len() as i64] };
         let mut lit = match dt {
             DType::I32 => TensorLit::i32(&dims, vals.to_vec()),
+            DType::U8 => TensorLit { dtype: DType::U8, dims: dims.clone(), f: vec![], i: vals.iter().map(|v| v.abs()).collect(), raw: true },
+            DType::I8 => TensorLit { dtype: DType::I8, dims: dims.clone(), f: vec![], i: vals.to_vec(), raw: true },
             DType::F32 => TensorLit::f32(&dims, vals.iter().map(|v| *v as f32).collect()),
             _ => TensorLit::i64(&dims, vals.to_vec()),
         };
@@ -229,7 +239,7 @@ impl B {
                 }
                 let len = (en.max(st) - st) as usize;
                 let o = self.node("Shape", vec![t.name], attrs, 1).remove(0);
-                self.add_iv(o, DType::I64, Some(len), 6.0);
+                self.add_iv(o, DType::I64, Some(len), t.nb.max(6.0));
             }
             4 => {
                 let Some(t) = self.pick_ten(s[1], |_| true) else { return };
@@ -369,7 +379,12 @@ impl B {
             24 | 25 => {
                 // Cast between int64 / int32 / float / bool
                 let Some(a) = self.pick_iv(s[1], |_| true) else { return };
-                let to = [DType::I64, DType::F32, DType::I32, DType::I64, DType::Bool][idx(s[2], 5)];
+                // narrowing casts (uint8 / int8 wrap values such as 300 or -1) and back
+                let to = if matches!(a.dt, DType::U8 | DType::I8) {
+                    [DType::I64, DType::I32, DType::F32, DType::I64, DType::I8, DType::U8][idx(s[2], 6)]
+                } else {
+                    [DType::I64, DType::F32, DType::I32, DType::U8, DType::I8, DType::Bool, DType::U8, DType::I64][idx(s[2], 8)]
+                };
                 let o = self.node("Cast", vec![a.name], vec![("to", Attr::Int(to.onnx_code()))], 1).remove(0);
                 self.add_iv(o, to, a.len, a.mag);
             }
@@ -655,8 +670,25 @@ pub fn build(raw: &RawChain) -> ChainBuilt {
         let name = format!("in{i}");
         let mut dims = Vec::new();
         let mut shape = Vec::new();
+        let big = if ri.big % 3 == 0 { Some(((ri.big as usize >> 2) % rank, BIG_DIMS[(ri.big as usize >> 4) % BIG_DIMS.len()])) } else { None };
         for d in 0..rank {
             let x = ri.dims[d] as usize;
+            if let Some((pos, size)) = big {
+                // keep the tensor small: every other dim is 0, 1 or 2
+                if d == pos {
+                    if ri.big & 2 != 0 {
+                        dims.push(Dim::Sym(format!("big{size}")));
+                    } else {
+                        dims.push(Dim::Fixed(size as i64));
+                    }
+                    shape.push(size);
+                } else {
+                    let sz = if size > 600 { [1usize, 0, 1, 1][(x >> 2) % 4] } else { [1usize, 2, 0, 1][(x >> 2) % 4] };
+                    dims.push(Dim::Fixed(sz as i64));
+                    shape.push(sz);
+                }
+                continue;
+            }
             if x & 3 >= 2 {
                 let k = (x >> 2) % 4;
                 dims.push(Dim::Sym(SYMS[k].to_string()));
@@ -676,7 +708,7 @@ pub fn build(raw: &RawChain) -> ChainBuilt {
             TVal::filled(dt, &shape, |k| ((hash32(s, k as u32) % 17) as i32 - 8) as f64 * 0.5)
         };
         data.push((name.clone(), tv));
-        b.tens.push(Ten { name: name.clone(), dt, rank, nb: shape.iter().product::<usize>() as f64 });
+        b.tens.push(Ten { name: name.clone(), dt, rank, nb: shape.iter().map(|d| (*d).max(1)).product::<usize>() as f64 });
         // a rank-1 integer input of fixed length is also a shape-carrying value with unknown elements
         if ri.int && rank == 1 {
             if let Dim::Fixed(l) = &graph_inputs.last().unwrap().shape.as_ref().unwrap()[0] {
